@@ -587,6 +587,34 @@ pub fn run(ctx: &mut Ctx) {
                 );
             }
         }
+        // a declared length SMALLER than the structure (0, 1, 2, 3, n-1, random): the parser sees the same `len`
+        // on the buffer cut at `len` and on the longer buffer; bytes beyond the declared length must not matter
+        let mut ls = vec![0usize, 1, 2, 3, n.saturating_sub(1), r.usize(0, n)];
+        ls.retain(|l| *l < n);
+        ls.dedup();
+        for l in ls {
+            if let Some((a, b, same)) = ctx.guarded(name, &long, || {
+                let ra = f(&long[..l], l);
+                let rb = f(&long, l);
+                let same = match (&ra, &rb) {
+                    (Ok((_, x)), Ok((rem, y))) => veq(x, y) && rem.len() == long.len() - l && rem.as_ptr() == long[l..].as_ptr(),
+                    (Err(_), Err(_)) => true,
+                    _ => false,
+                };
+                (classify(&ra), classify(&rb), same)
+            }) {
+                ctx.eval();
+                ctx.count("lenparam.cases");
+                ctx.count("lenparam.short-declared");
+                ctx.shape(&(name, "short-declared", l.min(4), a.class(), b.class()));
+                if !same {
+                    ctx.violation(
+                        format!("c04:len-param:{}:bytes-beyond-declared-length-change-the-result", name),
+                        json!({"parser": name, "declared_len": l, "structure_len": n, "on_buffer_cut_at_len": a.show(), "on_longer_buffer": b.show(), "input_hex": hex_short(&long)}),
+                    );
+                }
+            }
+        }
         // shorter buffer: the declared length is not available => no value
         if n > 0 && (variant != 4 || n > 4) {
             let cut = r.usize(if variant == 4 { 4 } else { 0 }, n - 1);
